@@ -149,10 +149,20 @@ def ownership(P, R, rule='C14.OWN.1'):
             n += 1
             src = r
 
-            def nulls(t, src=src):
-                return t.ev['k'] == 'store' and same(t.ev['lhs'], src) and const_of(t.ev.get('rhs')) == 0
+            def nulls(t, src=src, dst=l, s=s):
+                if not (t.ev['k'] == 'store' and same(t.ev['lhs'], src)):
+                    return False
+                if const_of(t.ev.get('rhs')) == 0:
+                    return True
+                # a swap: the source takes the pointer the destination held before (saved in a local ahead of the
+                # move), so each tree ends up owning exactly one of the two
+                v = t.ev.get('rhs')
+                if is_var(v):
+                    d = rv.single_def(v['name'])
+                    return bool(d) and same(d[1], dst) and rv.before(d[0], s)
+                return False
             p = rv.path_avoiding(s, nulls)
-            R.ob(rule, p is None, s, 'the pointer moved by %s = %s is nulled at the source on every path (both trees are disposed later)' % (sx(l), sx(r)), key='move:%s' % l['field'])
+            R.ob(rule, p is None, s, 'the pointer moved by %s = %s is nulled at the source (or swapped for the one it replaces) on every path (both trees are disposed later)' % (sx(l), sx(r)), key='move:%s' % l['field'])
     R.floor(rule, 3, 'pointer moves from the scratch tree')
 
 
